@@ -31,6 +31,7 @@ type exchange struct {
 	ncalls int
 	open   bool
 	hdr    http.Header // client's request headers at the time of the call
+	url    string      // ... and its URL
 	fg304  []string    // tags of 304s received by foreground calls
 	cancel int         // the caller cancels its context (1: after the return, 2: before the call)
 	noStore bool       // the request carries no-store: nothing of this exchange may be written back
@@ -323,7 +324,10 @@ func (w *World) buildResponse(req *http.Request, a *Ans, now time.Time) (*http.R
 	if a.VS == 1 {
 		s := "*"
 		if a.VSp == 2 { // any list with the member "*" means the same
-			s = []string{"X-A, *", "*, accept-language", "X-B ,*"}[w.rnd.Intn(3)]
+			i := w.rnd.Intn(3)
+			s = []string{"X-A, *", "*, accept-language", "X-B ,*"}[i]
+			// (the fields that are named besides "*" are logged: they make it another Vary field set for the footprint)
+			m["vary"] = []int{[]int{2, 1, 3}[i]}
 		}
 		add("Vary", s)
 		w.mu.Lock()
@@ -543,7 +547,7 @@ func (o *Origin) RoundTrip(req *http.Request) (*http.Response, error) {
 		"m": req.Method, "t0": logT(w.epoch, t0), "lat": a.Lat,
 		"inm": w.etagClass(inm), "ims": w.dateClass(ims), "rng": b2i(req.Header.Get("Range") != ""),
 		"oic": b2i(strings.Contains(strings.ToLower(strings.Join(req.Header.Values("Cache-Control"), ",")), "only-if-cached")),
-		"url": req.URL.String(), "hsame": b2i(sameButConditional(req.Header, e.hdr)),
+		"url": req.URL.String(), "hsame": b2i(sameButConditional(req.Header, e.hdr)), "usame": b2i(e.url == "" || req.URL.String() == e.url),
 	}
 	done := func(kind, tag, tok string, m M, ctxDone int) {
 		ev["kind"], ev["tag"], ev["tok"], ev["t1"], ev["ctxdone"] = kind, tag, tok, w.now(), ctxDone
